@@ -434,7 +434,7 @@ def check (c):
         ga, gb = o0 ['gain'][..., 2], ov ['gain'][..., 2]
         fa, fb = 10 ** (np.maximum (ga, -300) / 20), 10 ** (np.maximum (gb, -300) / 20)
         lin = float (np.abs (fa - fb).max () / fa.max ())
-        judge ('gain:' + name, lin, 2 * tol, 'variant %s: field pattern differs by %.3g of the main beam' % (name, lin))
+        judge ('gain:' + name, lin, 2 * tol + d * observe.power_ratio (mv), 'variant %s: field pattern differs by %.3g of the main beam' % (name, lin))
     # ---- mirror symmetry
     if spec.get ('sym'):
         R  = np.array (spec ['sym']['R'])
